@@ -97,6 +97,11 @@ func c11judged() []Choice {
 		tx("change_param(non owner)", chain.TxSpec{Msg: "change_param", From: 3, Key: "pos/StakeMinimum", Val: `"2000000"`}),
 		tx("change_param(owner, malformed)", chain.TxSpec{Msg: "change_param", From: 4, Key: "pos/StakeMinimum", Val: `{"x`}),
 		tx("change_param(owner, wrong type)", chain.TxSpec{Msg: "change_param", From: 4, Key: "pos/StakeMinimum", Val: `"abc"`}),
+		// struct-valued parameters whose first field is well formed and a later one is not (a decoder
+		// that fills fields in order has touched the value by the time it fails)
+		tx("change_param(auth/FeeMultipliers, later field malformed)", chain.TxSpec{Msg: "change_param", From: 4, Key: "auth/FeeMultipliers", Val: c17partial()["auth/FeeMultipliers"]}),
+		tx("change_param(gov/upgrade, later field malformed)", chain.TxSpec{Msg: "change_param", From: 4, Key: "gov/upgrade", Val: c17partial()["gov/upgrade"]}),
+		tx("change_param(gov/acl, later entry malformed)", chain.TxSpec{Msg: "change_param", From: 4, Key: "gov/acl", Val: c17partial()["gov/acl"]}),
 		tx("change_param(unknown key)", chain.TxSpec{Msg: "change_param", From: 4, Key: "pos/Nope", Val: `"1"`}),
 		tx("change_param(no separator)", chain.TxSpec{Msg: "change_param", From: 4, Key: "nokey", Val: `"1"`}),
 		tx("change_param(unknown parameter space, by the owner)", chain.TxSpec{Msg: "change_param", From: 4, Key: "nosuchspace/SomeParam", Val: `"1"`}),
